@@ -11,7 +11,7 @@
      faults   : Q <n> { <pos> <disk> <E|I|F> }*
      wfaults  : W <n> { <pos> <level> <E|N> }*       (E = EIO -> WEio, N = anything else (ENOSPC) -> WErr)
    request  : syncw <force_full> <force_parity_update> <io_limit> <now> <bs> <nlev> <stop|-1> <start> <max> M <io_cache> <lag> H.. C.. P.. FS.. Q.. W..
-   reply    : ok <nerr> <nsilent> <nio> <bailed> <nfail> <nlost> C.. P..
+   reply    : ok <nerr> <nsilent> <nio> <bailed> <nfail> <nlost> <iterations completed> C.. P..
    request  : scrub1 <limit> <io_before> <now> <time> <bad> <rehash> <just> D <n> { <used> <invalid> <file> <tsdiff> <updhash> <O1|O0|E|I|FI|F> }* L <n> { <P1|P0|E|I|FI|F> }*
    reply    : ok <time> <bad> <rehash> <just> <bail> <nerr> <nsilent> <nio>
    request  : trace <force_full> <force_parity_update> <io_limit> <now> <bs> <nlev> <stop|-1> <start> <max> A <autosave_at> H.. C.. P.. FS.. Q..
@@ -183,8 +183,8 @@ let () =
                     (if stop < 0 then None else Some (nat_of_int stop)) O [] O c p O O O in
           let ro = r.w_run in
           let b = Buffer.create 4096 in
-          Buffer.add_string b (Printf.sprintf "ok %d %d %d %d %d %d " (int_of_nat ro.ro_nerr) (int_of_nat ro.ro_nsilent) (int_of_nat ro.ro_nio)
-                                 (if ro.ro_bailed then 1 else 0) (int_of_nat r.w_nfail) (List.length r.w_lost));
+          Buffer.add_string b (Printf.sprintf "ok %d %d %d %d %d %d %d " (int_of_nat ro.ro_nerr) (int_of_nat ro.ro_nsilent) (int_of_nat ro.ro_nio)
+                                 (if ro.ro_bailed then 1 else 0) (int_of_nat r.w_nfail) (List.length r.w_lost) (int_of_nat r.w_iters));
           print_content b (save_normalise ro.ro_content);
           print_parity b ro.ro_parity;
           print_endline (Buffer.contents b)
